@@ -52,6 +52,11 @@ func ratingCheck(s float64) (key, exp, obs string) {
 		if pv := Safely(func() { got, err = p.f(s) }); pv != nil {
 			return "v" + p.name + "/Rating/panic", "no panic", fmt.Sprint(pv)
 		}
+		// the same score again, immediately: a pure function answers the same (memoised rejections, one-entry caches)
+		got2, err2 := p.f(s)
+		if got2 != got || (err2 == nil) != (err == nil) {
+			return "v" + p.name + "/Rating/second-call-differs", fmt.Sprintf("(%q, %v) again", got, err), fmt.Sprintf("(%q, %v) on the second consecutive call", got2, err2)
+		}
 		if in {
 			if err != nil || got != want {
 				return "v" + p.name + "/Rating/wrong-rating-" + want, fmt.Sprintf("(%q, nil)", want), fmt.Sprintf("(%q, %v)", got, err)
